@@ -304,6 +304,69 @@ OwnProg(x) ==
             [op |-> "Scribble", buf |-> 1], [op |-> "WriteTo", h |-> 2], [op |-> "Diag", h |-> 1]>>]
 
 (***************************************************************************)
+(* family "vbi": boundary values and short byte sequences through hook H1  *)
+(***************************************************************************)
+VbiCenters == {0, 128, 16384, 2097152, MaxVBI}
+VbiValues == UNION {{x \in (cn - 300)..(cn + 300) : x >= 0 /\ x <= MaxVBI} : cn \in VbiCenters}
+             \cup UNION {{2 ^ j - 1, 2 ^ j, 2 ^ j + 1} \cap (0..MaxVBI) : j \in 0..28}
+VbiAlphabet == {0, 1, 127, 128, 129, 255}
+VbiSeqs(n) == [1..n -> VbiAlphabet]
+VbiCases ==
+  {[kind |-> "vbienc", lo |-> lo] : lo \in {x \in VbiValues : x % 64 = 0} \cup {0}}
+  \cup UNION {{[kind |-> "vbidec", s |-> s] : s \in VbiSeqs(n)} : n \in 1..(IF Thorough THEN 5 ELSE 4)}
+  \cup {[kind |-> "vbidec", s |-> <<128 + (a % 128), 128 + b, 128 + (a \div 128), 255, f5>>] : a \in {0, 1, 16383}, b \in {0, 127}, f5 \in {0, 1, 127, 128, 255}}
+VbiProg(x) ==
+  IF x.kind = "vbienc"
+  THEN [fam |-> "vbi", meta |-> [kind |-> x.kind],
+        steps |-> <<[op |-> "VBI", key |-> "enc", bytes |-> SetToSortSeq({v \in VbiValues : v >= x.lo /\ v < x.lo + 64}, LAMBDA a, b : a < b)]>>]
+  ELSE [fam |-> "vbi", meta |-> [kind |-> x.kind], steps |-> <<[op |-> "VBI", key |-> "dec", bytes |-> x.s]>>]
+
+(* the subscription identifier and the remaining length through the public API *)
+VbiApiCases == {[kind |-> "vbiapi", v |-> v] : v \in {1, 127, 128, 16383, 16384, 2097151, 2097152, MaxVBI}}
+VbiApiProg(x) ==
+  [fam |-> "vbi", meta |-> [kind |-> x.kind],
+   steps |-> <<[op |-> "New", h |-> 1, type |-> "Subscribe"], CallOp(1, "SetPacketID", <<1>>), CallOp(1, "SetSubscriptionID", <<x.v>>),
+               CallOp(1, "AddFilters", << <<Txt(1), 0>> >>), [op |-> "WriteTo", h |-> 1], [op |-> "Stream", stream |-> 1, from |-> 1],
+               [op |-> "ReadPacket", h |-> 2, stream |-> 1],
+               [op |-> "New", h |-> 3, type |-> "Publish"], CallOp(3, "SetTopicName", <<Txt(1)>>), CallOp(3, "AddSubscriptionID", <<Pair32(x.v)>>),
+               CallOp(3, "SetPayload", <<Bin(IF x.v <= 2097152 THEN x.v ELSE 5)>>),
+               [op |-> "WriteTo", h |-> 3], [op |-> "Stream", stream |-> 1, from |-> 3], [op |-> "ReadPacket", h |-> 4, stream |-> 1]>>]
+
+(***************************************************************************)
+(* family "conc": configurations of concurrent read-only operations (C13)  *)
+(***************************************************************************)
+ROps == <<"WriteTo", "String", "Dump", "WellFormed", "Accessors", "ReadPacket">>
+(* one packet per type carrying every property it may carry (built explicitly: CHOOSE over a set of *)
+(* packets would make TLC sort records whose fields are not comparable)                             *)
+FullPkt(t) ==
+  LET ps == Asc(Allowed(t)) IN
+  IF t = 1 THEN CHOOSE p \in ConnectPkts({TRUE}, {[w |-> TRUE, wq |-> 1, wr |-> TRUE]}, {TRUE}, {TRUE}, {300},
+                                          {ps}, {Asc(Allowed(WILLCTX))}, {Txt(3)}, {Bin(3)}) : TRUE
+  ELSE IF t = 2 THEN [t |-> 2, fl |-> 0, v |-> [AckFlags |-> 1, ReasonCode |-> 0, Props |-> ps]]
+  ELSE IF t = 3 THEN [t |-> 3, fl |-> 11, v |-> [TopicName |-> Txt(3), PacketID |-> 7, Props |-> ps, Payload |-> Bin(5)]]
+  ELSE IF t \in 4..7 THEN [t |-> t, fl |-> IF t = 6 THEN 2 ELSE 0, v |-> [PacketID |-> 7, ReasonCode |-> 128, Props |-> ps]]
+  ELSE IF t = 8 THEN [t |-> 8, fl |-> 2, v |-> [PacketID |-> 7, Props |-> ps, Filters |-> << <<Txt(3), 1>>, <<Txt(1), 2>> >>]]
+  ELSE IF t \in {9, 11} THEN [t |-> t, fl |-> 0, v |-> [PacketID |-> 7, Props |-> ps, ReasonCodes |-> <<1, 128>>]]
+  ELSE IF t = 10 THEN [t |-> 10, fl |-> 2, v |-> [PacketID |-> 7, Props |-> ps, Filters |-> <<Txt(3), Txt(1)>>]]
+  ELSE IF t \in {12, 13} THEN [t |-> t, fl |-> 0, v |-> EmptyFn]
+  ELSE [t |-> t, fl |-> 0, v |-> [ReasonCode |-> IF t = 14 THEN 142 ELSE 24, Props |-> ps]]
+ConcBase(t) == FullPkt(t)
+ConcCases ==
+  {[kind |-> "conc", t |-> t, a |-> a, b |-> b, cc |-> cc] :
+     t \in TYPES, a \in 1..6, b \in 1..6, cc \in (IF Thorough THEN 0..6 ELSE {0})}
+ConcValid(x) == x.a <= x.b /\ (x.cc = 0 \/ x.b <= x.cc)
+ConcProg(x) ==
+  LET p == ConcBase(x.t)
+      shared == x.t = 1 /\ "WillProps" \in DOMAIN p.v        \* the will PUBLISH (handle 2) is also used directly
+      ops == <<ROps[x.a], ROps[x.b]>> \o (IF x.cc = 0 THEN <<>> ELSE <<ROps[x.cc]>>)
+  IN [fam |-> "conc", meta |-> [t |-> x.t, ops |-> ops],
+      steps |-> BuildOps(p) \o <<[op |-> "WriteTo", h |-> 1]>>
+                \o (IF shared THEN <<[op |-> "WriteTo", h |-> 2]>> ELSE <<>>)
+                \o <<[op |-> "Conc", hs |-> IF shared THEN <<1, 2, 1>> ELSE <<1>>, ops |-> ops,
+                      procs |-> IF Thorough THEN 8 ELSE 4, n |-> IF Thorough THEN 2000 ELSE 200],
+                     [op |-> "Diag", h |-> 1]>>]
+
+(***************************************************************************)
 Cases2 ==
   IF FAMILY = "sched" THEN SchedCases
   ELSE IF FAMILY = "fault" THEN FaultCases
@@ -314,6 +377,8 @@ Cases2 ==
   ELSE IF FAMILY = "wfault" THEN WFaultCases \cup (IF 1 \in TYPES THEN OddCases ELSE {})
   ELSE IF FAMILY = "cred" THEN CredCases
   ELSE IF FAMILY = "own" THEN OwnCases
+  ELSE IF FAMILY = "vbi" THEN VbiCases \cup VbiApiCases
+  ELSE IF FAMILY = "conc" THEN {x \in ConcCases : ConcValid(x)}
   ELSE Cases
 
 Init2 == c \in Cases2 /\ pool = EmptyFn
@@ -332,11 +397,17 @@ ProgOf2(x) ==
   ELSE IF x.kind = "odd" THEN OddProg(x)
   ELSE IF x.kind = "cred" THEN CredProg(x)
   ELSE IF x.kind \in {"own", "ownall"} THEN OwnProg(x)
+  ELSE IF x.kind \in {"vbienc", "vbidec"} THEN VbiProg(x)
+  ELSE IF x.kind = "vbiapi" THEN VbiApiProg(x)
+  ELSE IF x.kind = "conc" THEN ConcProg(x)
   ELSE ProgOf(x)
 
 Theorems2 ==
   IF c.kind \in {"frame", "build", "cut", "undef", "bool", "prefix", "rlfifth"} THEN Theorems
   ELSE IF c.kind = "cred" THEN Len(SecretA(c)) = Len(SecretB(c)) /\ SecretA(c) # SecretB(c)
+  ELSE IF c.kind = "vbienc" THEN \A v \in {y \in VbiValues : y >= c.lo /\ y < c.lo + 64} :
+                                   /\ VBI(v) = VBI4(v) /\ Len(VBI(v)) = VBILen(v)
+                                   /\ LET r == VBIRead(VBI(v)) IN r.kind = "value" /\ r.val = v /\ r.minimal /\ r.width = VBILen(v)
   ELSE TRUE
 
 Emit2 == PrintT(<<"PROG", ToJson(ProgOf2(c))>>)
